@@ -12,9 +12,12 @@ from . import core, mem
 
 def mc_configs(tier):
     cfgs = [dict(spp=2, pages=2, nkeys=2, maxbatch=3, maxhist=7), dict(spp=3, pages=1, nkeys=2, maxbatch=2, maxhist=6),
-            dict(spp=2, pages=3, nkeys=2, maxbatch=2, maxhist=8)]
+            dict(spp=2, pages=3, nkeys=2, maxbatch=2, maxhist=8),
+            # two flushers: the tombstones of a batch reach the log flusher by flusher, in either order
+            dict(spp=2, pages=3, nkeys=2, maxbatch=2, maxhist=7, flushers=2), dict(spp=3, pages=2, nkeys=3, maxbatch=2, maxhist=6, flushers=2)]
     if tier == "thorough":
-        cfgs += [dict(spp=3, pages=2, nkeys=2, maxbatch=3, maxhist=9), dict(spp=2, pages=3, nkeys=3, maxbatch=3, maxhist=9)]
+        cfgs += [dict(spp=3, pages=2, nkeys=2, maxbatch=3, maxhist=9), dict(spp=2, pages=3, nkeys=3, maxbatch=3, maxhist=9),
+                 dict(spp=2, pages=4, nkeys=3, maxbatch=3, maxhist=9, flushers=2)]
     return cfgs
 
 
@@ -24,6 +27,7 @@ def model_check(d, c, i):
     with open(os.path.join(d, name), "w") as f:
         f.write("\n".join(["SPECIFICATION Spec", "CONSTANTS", f"  SlotsPerPage = {c['spp']}", f"  Pages = {c['pages']}",
                            f"  NKeys = {c['nkeys']}", f"  MaxBatch = {c['maxbatch']}", f"  MaxHist = {c['maxhist']}",
+                           f"  Flushers = {c.get('flushers', 1)}", '  TailRule = "drop"',
                            "CONSTRAINT Bound", "INVARIANT Inv", "CHECK_DEADLOCK FALSE"]) + "\n")
     r = core.run_tlc(d, "MC_TombLog", name, workers=4, timeout=1200)
     core.tlc_must_pass(r, f"MC_TombLog[{c}]")
@@ -99,7 +103,7 @@ def unique_workloads(rng, nload, cap, tier):
     return out
 
 
-def run_device(d, blocks, block_pages, tier, seed):
+def run_device(d, blocks, block_pages, tier, seed, flushers=1):
     nkeys = 40
     os.makedirs(d, exist_ok=True)
     p = dict(algo="fifo", shards=1, hash={1: 1}, cfg=dict(mem.DEFAULT_CFG))
@@ -107,7 +111,7 @@ def run_device(d, blocks, block_pages, tier, seed):
     hpath = os.path.join(d, "hcfg.json")
     with open(hpath, "w") as f:
         json.dump({"policy": "woi", "flush_on_close": True, "tomblog": True, "memcap": 4, "keyloc": {},
-                   "blocks": blocks, "block_pages": block_pages}, f)
+                   "blocks": blocks, "block_pages": block_pages, "flushers": flushers}, f)
     total_pages = blocks * block_pages
     log_pages = -(-(total_pages + max(1, -(-total_pages // 256)) + 1) // 256)
     rng = random.Random(seed * 31 + blocks)
@@ -133,7 +137,8 @@ def run_device(d, blocks, block_pages, tier, seed):
     core.copy_specs(d, {"TombLog", "Trace_TombLog"})
     with open(os.path.join(d, "TR.cfg"), "w") as f:
         f.write("\n".join(["SPECIFICATION TraceSpec", "CONSTANTS", "  SlotsPerPage = 256", f"  Pages = {pages}",
-                           f"  NKeys = {nkeys}", "  MaxBatch = 1", "INVARIANT NoViolation_C10",
+                           f"  NKeys = {nkeys}", "  MaxBatch = 1", "  Flushers = 1", '  TailRule = "drop"',
+                           f"  TSlack = {0 if flushers == 1 else 64}", "INVARIANT NoViolation_C10",
                            "POSTCONDITION Consumed", "CHECK_DEADLOCK FALSE"]) + "\n")
     violations = []
     pending = [scripts[k] for k in sorted(scripts)]
@@ -158,14 +163,14 @@ def run_device(d, blocks, block_pages, tier, seed):
             if line_no <= acc + len(s):
                 evs = [json.loads(x) for x in s]
                 violations.append({"kind": "predicate", "bad": core.last_var(r["out"], "bad"),
-                                   "profile": f"{blocks}x{block_pages}",
+                                   "profile": f"{blocks}x{block_pages}" + (f"x{flushers}" if flushers > 1 else ""),
                                    "ops": ws[evs[0]["script"]]["ops"], "observed": evs[line_no - acc - 1],
                                    "op": {"name": "probe"}})
                 pending = pending[i + 1:]
                 break
             acc += len(s)
     deletes = sum(len(o.get("ks", [])) for w in ws for o in w["ops"] if o["a"] == "del")
-    return {"profile": f"{blocks}x{block_pages}-log{pages}p", "kind": "rand", "algo": "-", "scripts": n_scripts,
+    return {"profile": f"{blocks}x{block_pages}-log{pages}p" + (f"-{flushers}flushers" if flushers > 1 else ""), "kind": "rand", "algo": "-", "scripts": n_scripts,
             "matched": 0, "mismatched": 0, "roots": 0, "panics": 0, "nontrivial": n_scripts, "by_field": {},
             "tlc_trace_scripts": n_scripts, "deletes": deletes, "log_pages": pages}, violations, \
         {"profile": f"{blocks}x{block_pages}", "workload_head": ws[0]["ops"][:4]}
@@ -182,9 +187,10 @@ def check(tier):
         results.append({"profile": f"MC spp={c['spp']} pages={c['pages']}", "kind": "edge", "algo": "-",
                         "states": r["distinct"], "transitions": r["generated"], "scripts": 0, "matched": 0,
                         "mismatched": 0, "roots": 0, "panics": 0, "nontrivial": 0, "by_field": {}})
-    devices = [(8, 16), (16, 16), (48, 16)] if tier == "quick" else [(8, 16), (16, 16), (48, 16), (64, 16)]
+    devices = [(8, 16, 1), (16, 16, 1), (48, 16, 1), (16, 16, 2)] if tier == "quick" else \
+        [(8, 16, 1), (16, 16, 1), (48, 16, 1), (64, 16, 1), (16, 16, 2), (48, 16, 2)]
     with cf.ThreadPoolExecutor(max_workers=3) as ex:
-        futs = [ex.submit(run_device, os.path.join(base, f"dev{b}"), b, bp, tier, core.seed()) for b, bp in devices]
+        futs = [ex.submit(run_device, os.path.join(base, f"dev{b}f{fl}"), b, bp, tier, core.seed(), fl) for b, bp, fl in devices]
         for f in futs:
             out, vs, sample = f.result()
             results.append(out)
@@ -206,7 +212,9 @@ def replay(path):
     core.build_harness()
     with open(path) as f:
         v = json.load(f)["violation"]
-    blocks, bp = (int(x) for x in v["profile"].split("x"))
+    parts = [int(x) for x in v["profile"].split("x")]
+    blocks, bp = parts[0], parts[1]
+    fl = parts[2] if len(parts) > 2 else 1
     d = core.work_dir("C10-replay")
     # same device, the single recorded workload
     import types
@@ -215,7 +223,7 @@ def replay(path):
     saved = workloads
     workloads = lambda *a, **k: [{"ops": v["ops"]}]  # noqa: E731
     try:
-        out, vs, _ = run_device(os.path.join(d, "dev"), blocks, bp, "quick", 0)
+        out, vs, _ = run_device(os.path.join(d, "dev"), blocks, bp, "quick", 0, fl)
     finally:
         workloads = saved
     if vs:
